@@ -103,7 +103,7 @@ class ToricCode(StabilizerCode):
                 raise ValueError('{} minimum size is {}.'.format(type(self).__name__, self.MIN_SIZE))
         except TypeError as ex:
             raise TypeError('{} invalid parameter type'.format(type(self).__name__)) from ex
-        self._size = rows, columns
+        self._size = operator.index(rows), operator.index(columns)
 
     # < StabilizerCode interface methods >
 
